@@ -187,7 +187,7 @@ theorem attach_excl {fs : Fields} {ps : List Path} (hid : tailsOf "_id" ps = [])
 
 theorem base_empty {fs : Fields} {idv : Val} {idf : Option Bool} (hk : (dkeys fs).Nodup)
     (hidv : IdReads idv idf) :
-    baseCopy fs [] idv = .ok (if (idf != some false) = true
+    baseCopy fs [] idv false = .ok (if (idf != some false) = true
       then idLastF (inclFields fs [["_id"]]) else exclFields fs [["_id"]]) := by
   have hid : tailsOf "_id" ([] : List Path) = [] := rfl
   have hincl : inclFields fs [] = [] := by
@@ -201,21 +201,22 @@ theorem base_empty {fs : Fields} {idv : Val} {idf : Option Bool} (hk : (dkeys fs
   simp only [List.map_nil, mixedValues, List.any_nil, Bool.false_eq_true, if_false, bind,
     Except.bind, pure, Except.pure, idReads_one hidv, idReads_zero hidv]
   cases hkeep : (idf != some false)
-  · simp only [Bool.false_eq_true, if_false, Bool.not_false, if_true]
+  · simp only [Bool.false_eq_true, if_false, Bool.not_false, if_true, Bool.false_and,
+      Bool.and_true]
     rw [← excl_id_erase hid hk, excl_nil]
-  · simp only [if_true, Bool.not_true, Bool.false_eq_true, if_false]
+  · simp only [if_true, Bool.not_true, Bool.false_eq_true, if_false, Bool.not_false,
+      Bool.and_true]
     have := attach_incl hk hid
     rw [hincl] at this
     rw [this]
 
-theorem base_plain {fs plain : Fields} {idv : Val} {idf : Option Bool} {b : Bool}
+theorem base_plain {fs plain : Fields} {idv : Val} {idf : Option Bool} {b : Bool} (ka : Bool)
     (hk : (dkeys fs).Nodup) (hidv : IdReads idv idf) (hne : plain ≠ [])
     (hfl : ∀ kv ∈ plain, flagOf kv.2 = some b)
     (hnc : NoColl (plain.map (fun kv => splitDots kv.1)))
     (hnd : NoDollar (plain.map (fun kv => splitDots kv.1)))
-    (hid : tailsOf "_id" (plain.map (fun kv => splitDots kv.1)) = [])
-    (hD : descFields fs (plain.map (fun kv => splitDots kv.1)) b = []) :
-    baseCopy fs plain idv = .ok (
+    (hid : tailsOf "_id" (plain.map (fun kv => splitDots kv.1)) = []) :
+    baseCopy fs plain idv ka = .ok (
       if b = true then
         idLastF (inclFields fs (if (idf != some false) = true
           then ["_id"] :: plain.map (fun kv => splitDots kv.1)
@@ -245,14 +246,14 @@ theorem base_plain {fs plain : Fields} {idv : Val} {idf : Option Bool} {b : Bool
     simp only [hmix, combineSpec, hcs, guard_ok hrep hnd, hv0, bind, Except.bind, pure,
       Except.pure, Bool.false_eq_true, if_false, idReads_zero hidv]
     cases b
-    · rw [fpFields_excl fs cs _ hrep hnd hD]
+    · rw [fpFields_excl fs cs _ hrep hnd]
       simp only [Bool.false_eq_true, if_false]
       cases hkeep : (idf != some false)
       · simp only [Bool.not_false, if_true, Bool.false_eq_true, if_false]
         rw [excl_id_erase hid hk]
       · simp only [Bool.not_true, Bool.false_eq_true, if_false, if_true]
         rw [attach_excl hid]
-    · rw [fpFields_incl fs cs _ hrep hnd hD]
+    · rw [fpFields_incl fs cs _ hrep hnd]
       simp only [if_true]
       cases hkeep : (idf != some false)
       · simp only [Bool.not_false, if_true, Bool.false_eq_true, if_false]
@@ -346,8 +347,7 @@ theorem mem_derase' {k : String} {kv : String × Val} {fs : Fields} (h : kv ∈ 
 
 /-- **the dict form**: on D, `_copy_only_fields` is the rule -/
 theorem exact_dict {fs fields : Fields} {n : Norm} (hk : (dkeys fs).Nodup)
-    (hs : specReasons fields = []) (hn : normDict fields = some n)
-    (hD : descFields fs n.paths n.incl = []) :
+    (hs : specReasons fields = []) (hn : normDict fields = some n) :
     copyWithDict fs fields = .ok (if n.incl = true then idLastF (projectNorm n fs)
       else projectNorm n fs) := by
   have ok := specOk_of_reasons hs
@@ -355,13 +355,13 @@ theorem exact_dict {fs fields : Fields} {n : Norm} (hk : (dkeys fs).Nodup)
   have hx : extractOps (derase "_id" fields) = .ok ([], fields.filter (fun kv => kv.1 != "_id")) := by
     rw [extractOps_plain (fun kv hkv => ok.noDoc kv (mem_derase hkv)), derase_eq_filter ok.nodup]
   unfold copyWithDict
-  simp only [hx, bind, Except.bind]
+  have hka : (!(dhas "_id" fields) && onlySlices []) = false := by simp [onlySlices]
+  simp only [hx, bind, Except.bind, hka]
   rcases hcase with ⟨hpl, hincl, hpaths⟩ | ⟨hpl, hpaths, hfl⟩
   · rw [hpl, base_empty hk hreads]
     simp only [applyOps_nil, projectNorm, hincl, hpaths, hkeep]
     cases (idf != some false) <;> simp
-  · rw [hpaths] at hD
-    rw [base_plain hk hreads hpl hfl (noCollision_noColl _ ok.noColl) ok.noDollar ok.noIdPath hD]
+  · rw [base_plain false hk hreads hpl hfl (noCollision_noColl _ ok.noColl) ok.noDollar ok.noIdPath]
     simp only [applyOps_nil, projectNorm, hpaths, hkeep]
     cases n.incl <;> simp
 
@@ -401,13 +401,13 @@ theorem fieldsListToDict_eq : ∀ (names : List Val) (acc fields : Fields),
 
 /-! ### the theorem -/
 
-theorem reasons_dict {fs fields : Fields}
+theorem reasons_dict {fields : Fields}
     (h : (let rs := specReasons fields
           if !rs.isEmpty then rs
           else match normDict fields with
             | none => ["malformed"]
-            | some n => descFields fs n.paths n.incl) = []) :
-    specReasons fields = [] ∧ ∃ n, normDict fields = some n ∧ descFields fs n.paths n.incl = [] := by
+            | some _ => []) = []) :
+    specReasons fields = [] ∧ ∃ n, normDict fields = some n := by
   simp only at h
   split at h
   · next hne => rw [h] at hne; simp at hne
@@ -416,20 +416,20 @@ theorem reasons_dict {fs fields : Fields}
     refine ⟨hs, ?_⟩
     split at h
     · cases h
-    · next n hn => exact ⟨n, hn, h⟩
+    · next n hn => exact ⟨n, hn⟩
 
 theorem exact_fields {fs fields : Fields} (hk : (dkeys fs).Nodup)
     (h : (let rs := specReasons fields
           if !rs.isEmpty then rs
           else match normDict fields with
             | none => ["malformed"]
-            | some n => descFields fs n.paths n.incl) = []) :
+            | some _ => []) = []) :
     ∃ n, normDict fields = some n ∧
       (copyWithDict fs fields).map Val.doc = .ok (if n.incl = true
         then idLast (.doc (projectNorm n fs)) else .doc (projectNorm n fs)) := by
-  obtain ⟨hs, n, hn, hD⟩ := reasons_dict h
+  obtain ⟨hs, n, hn⟩ := reasons_dict h
   refine ⟨n, hn, ?_⟩
-  rw [exact_dict hk hs hn hD]
+  rw [exact_dict hk hs hn]
   cases n.incl <;> simp [Except.map, idLast_doc]
 
 theorem exact_main (p d : Val) (h : reasons p d = []) :
